@@ -376,7 +376,15 @@ func runLife(e *Env) {
 				if tp.Chance(1, 2) {
 					typ, ch = "STATUS_CHANGE", []string{"UP", "DOWN"}[tp.Next(2)]
 				}
-				cl.PushEvent(&cqlspec.Response{EventType: typ, EventChange: ch, EventIP: net.ParseIP(h.Addr).To4(), EventPort: 9042})
+				if tp.Chance(1, 3) {
+					// a schema change: for a keyspace the handler waits for schema agreement
+					// (queries on the control connection, while more events may follow)
+					k.Fault("event.schema-change")
+					tg := []string{"KEYSPACE", "KEYSPACE", "TABLE"}[tp.Next(3)]
+					cl.PushEvent(&cqlspec.Response{EventType: "SCHEMA_CHANGE", Schema: &cqlspec.SchemaChange{Change: []string{"CREATED", "UPDATED", "DROPPED"}[tp.Next(3)], Target: tg, Keyspace: "ks", Name: "t"}})
+				} else {
+					cl.PushEvent(&cqlspec.Response{EventType: typ, EventChange: ch, EventIP: net.ParseIP(h.Addr).To4(), EventPort: 9042})
+				}
 				if tp.Chance(1, 2) {
 					// ... and the driver's event debounce interval passes with whatever is
 					// outstanding still outstanding
